@@ -128,6 +128,24 @@ Definition eof_step (reresolve restore : bool) (j' : journal) (it : jit) : jit *
        then (mkJit (fst eofpos) (snd eofpos) None (j_bad it'), false)
        else (it', false).
 
+(* ---- chkSelector.getPosForward, the answer "nothing left to read": the position is the end of the last chunk. The
+   selector has read the chunk's record count once, for its status (journal j); `reread` = false, the code: the answer
+   carries that count (`np`, the number the position was checked against); `reread` = true: the count is read again when the
+   answer is built (journal j2, which a flush may have extended meanwhile) *)
+Definition end_answer (reread : bool) (j j2 : journal) (it : jit) : jit * bool :=
+  match j_ci it with
+  | Some _ => (it, true)
+  | None =>
+      match chunk_ge j (j_cid it) with
+      | None => (it, false)
+      | Some chk =>
+          if (c_id chk <? j_cid it)%N
+          then let n := if reread then match find_chunk j2 (c_id chk) with Some c2 => cnt c2 | None => cnt chk end else cnt chk in
+               (mkJit (c_id chk) n None (j_bad it), false)
+          else ensure j it
+      end
+  end.
+
 (* ------------------------------------------------------------------ LogEventIterator *)
 Record oev := mkOev { o_src : nat; o_ts : Z; o_msg : bytes; o_flds : bytes }.   (* a delivered event *)
 Record lei := mkLei { l_it : jit; l_flds : bytes }.                            (* l_flds: Fields of the reused LogEvent *)
@@ -523,3 +541,6 @@ Definition repo_reresolves_eof : bool := true.
 (* true = the position of the first unread record is kept when the selector answers with a later end of the same chunk (the
    code, since /repo ee8da2c; it matters for the old stepping only) *)
 Definition repo_restores_eof : bool := true.
+(* false = the selector's "nothing left" answer carries the count the position was checked against (the code); true = it
+   reads the chunk's count again *)
+Definition repo_rereads_count : bool := false.
